@@ -910,6 +910,27 @@ fn emit_const(tcx: TyCtxt<'_>, ldid: LocalDefId) -> Option<J> {
             }
         }
     }
+    // byte-string / string constants: the bytes
+    let slice_like = match ty.kind() {
+        ty::Ref(_, inner, _) => match inner.kind() {
+            ty::Str => true,
+            ty::Slice(e) => matches!(e.kind(), ty::Uint(ty::UintTy::U8)),
+            _ => false,
+        },
+        _ => false,
+    };
+    if slice_like {
+        if let Ok(cv) = tcx.const_eval_poly(did) {
+            if let Some(bytes) = cv.try_get_slice_bytes_for_diagnostics(tcx) {
+                if bytes.len() <= 256 {
+                    o.insert(
+                        "bytes".into(),
+                        J::Arr(bytes.iter().map(|b| J::n(*b as i128)).collect()),
+                    );
+                }
+            }
+        }
+    }
     Some(J::Obj(o))
 }
 
